@@ -241,17 +241,24 @@ def mirrors(res, H, classes):
     for cname, c in classes.items():
         if not c["members"]:
             continue
-        enums = sorted({e for e, _, _ in c["members"].values()})
-        if len(enums) != 1:
-            res.bad("R-XLANG-MIRROR", cname, rel, c["line"], f"{cname} mixes enumerators of several C enums: {enums}")
-            continue
-        cen = H.enumerators(enums[0])
+        count = {}
+        for e, _, _ in c["members"].values():
+            count[e] = count.get(e, 0) + 1
+        enums = sorted(count, key=lambda e: (-count[e], e))
+        main = enums[0]
+        cen = H.enumerators(main)
         if cen is None:
-            res.bad("R-XLANG-MIRROR", cname, rel, c["line"], f"{cname} mirrors {enums[0]}, which the headers do not declare")
+            for mname, (e, cn, line) in c["members"].items():
+                res.bad("R-XLANG-MIRROR", f"{cname}.{mname}", rel, line, f"{cname} mirrors {main}, which the headers do "
+                        f"not declare")
             continue
         used = {}
         for mname, (e, cn, line) in c["members"].items():
             key = f"{cname}.{mname}"
+            if e != main:
+                res.bad("R-XLANG-MIRROR", key, rel, line, f"{key} = mujoco.{e}.{cn}, but {cname} mirrors {main}: members of "
+                        f"several C enums are mixed")
+                continue
             if cn not in cen:
                 res.bad("R-XLANG-MIRROR", key, rel, line, f"{key} = mujoco.{e}.{cn}: no such enumerator in {e}")
                 continue
@@ -270,7 +277,7 @@ def mirrors(res, H, classes):
         prefixes = {cn.split("_", 1)[0] + "_" for _, cn, _ in c["members"].values() if "_" in cn}
         omitted = [n for n in cen if n not in used and any(n.startswith(p) for p in prefixes)]
         kind = next((b for b in c["bases"] if b.startswith("enum.")), c["bases"][0] if c["bases"] else "?")
-        out[cname] = {"cenum": enums[0], "partial": omitted, "kind": kind, "line": c["line"]}
+        out[cname] = {"cenum": main, "partial": omitted, "kind": kind, "line": c["line"]}
     return out
 
 
